@@ -242,8 +242,8 @@ def _stream(v1, m, v2, rep, rsv, atyp, dlen, with_app):
 # classes of the reply used as partitions
 #  0 wrong version in method reply   1 wrong method   2 wrong version in request reply
 #  3 error reply (rep != 0)   4 success IPv4   5 success IPv6   6 success DOMAINNAME   7 success, unknown address type
-_CLS = [{'rt': r, 'cls': c} for r in range(3) for c in range(10)]
-_CLS_Q = [{'rt': 0, 'cls': c} for c in range(10)] + [{'rt': r, 'cls': c} for r in (1, 2) for c in (3, 4, 5, 6)]
+_CLS = [{'rt': r, 'cls': c} for r in range(3) for c in range(11)]
+_CLS_Q = [{'rt': 0, 'cls': c} for c in range(11)] + [{'rt': r, 'cls': c} for r in (1, 2) for c in (3, 4, 5, 6)]
 _SMALL = (0, 1, 2, 4, 6, 8, 9, 255)
 
 
@@ -272,7 +272,13 @@ def _constrain(cls, v1, m, v2, rep, atyp, dlen, wide):
             assume(wide or _small(v2))
         else:
             assume(v2 == 5)
-            if cls == 3 or cls == 8 or cls == 9:
+            if cls == 10:
+                assume(rep != 0 and atyp != 1 and atyp != 3 and atyp != 4)
+                if wide:
+                    assume(atyp == 0)
+                else:
+                    assume(_small(rep) and (atyp == 0 or atyp == 2 or atyp == 255))
+            elif cls == 3 or cls == 8 or cls == 9:
                 assume(rep != 0)
                 assume(wide or _small(rep))
                 assume(atyp == (1 if cls == 3 else (4 if cls == 8 else 3)))
